@@ -46,3 +46,6 @@ mod k1 {
         assert_eq!(trivial_merge(&v, sc).copied(), Some(v[0]));
     }
 }
+
+#[cfg(kani)]
+mod k2;
